@@ -59,6 +59,27 @@ func runOrder(arch string, texts []string) string {
 			return "nondeterministic " + first + " / " + res
 		}
 	}
+	// the same sources read from one stream (a Sources-like file into a slice): the same order
+	var joined strings.Builder
+	for _, t := range texts {
+		joined.WriteString(strings.TrimRight(t, "\n") + "\n\n")
+	}
+	var fromStream []control.DSC
+	if err := control.Unmarshal(&fromStream, strings.NewReader(joined.String())); err != nil || len(fromStream) != len(dscs) {
+		return fmt.Sprintf("one-stream-route-differs: %d sources one at a time, %d from one stream (%v)", len(dscs), len(fromStream), err)
+	}
+	out, err := control.OrderDSCForBuild(fromStream, *ar)
+	res := "err"
+	if err == nil {
+		var names []string
+		for _, d := range out {
+			names = append(names, core.Hex(d.Source))
+		}
+		res = "ok " + strings.Join(names, " ")
+	}
+	if res != first {
+		return "one-stream-route-differs " + first + " / " + res
+	}
 	return first
 }
 
